@@ -119,10 +119,8 @@ func JSONGetNaturalLanguageField(val *fastjson.Value, prop string) NaturalLangua
 			}
 		})
 	case fastjson.TypeString:
-		l := LangRefValue{}
-		if err := l.UnmarshalJSON(v.GetStringBytes()); err == nil {
-			n = append(n, l)
-		}
+		// the value is the text itself: it must not be parsed as a JSON document again
+		n = append(n, LangRefValue{Ref: NilLangRef, Value: unescape(v.GetStringBytes())})
 	}
 
 	return n
